@@ -251,6 +251,16 @@ fn harnesses(thorough: bool) -> Vec<Harness> {
                 });
             }
         }
+        // patterns longer than one byte: a search keeps automaton state across several pulls, so a
+        // switch between two pulls happens *inside* a partial match (with one-byte patterns every
+        // pull ends in a match and the searches carry nothing over a scheduling point)
+        for &m1 in &ms {
+            v.push(Harness {
+                charwise,
+                pats: vec!["abc", "bca", "cc"],
+                threads: vec![(m1, "ababc"), (Method::Find, "bcabc")],
+            });
+        }
         // the same haystack on both threads (same states visited at the same time)
         v.push(Harness {
             charwise,
